@@ -720,55 +720,16 @@ func checkRewriteOnlyAfterSuccess(p *core.Prog, r *core.Result, rule string) {
 // in particular not with the dry-run flag.
 func checkBuildLoadsBuildFiles(p *core.Prog, r *core.Result, rule string) {
 	loadProject := need(p, r, rule, "cmd/dawn", "workspace", "loadProject")
-	run := need(p, r, rule, "", "Project", "Run")
-	if loadProject == nil || run == nil {
+	if loadProject == nil {
 		return
 	}
-	watch := p.Func("", "Project", "Watch")
-	cmdPkg := loadProject.Pkg
-	// functions of cmd/dawn that reach Project.Run / Watch through static calls inside cmd/dawn
-	var reaches func(fn *ssa.Function, seen map[*ssa.Function]bool) bool
-	reaches = func(fn *ssa.Function, seen map[*ssa.Function]bool) bool {
-		if fn == nil || seen[fn] || fn.Blocks == nil {
-			return false
-		}
-		seen[fn] = true
-		for _, c := range core.Calls(fn) {
-			cal := core.Callee(c)
-			if cal == nil {
-				continue
-			}
-			if cal == run || (watch != nil && cal == watch) {
-				return true
-			}
-			if cal.Pkg == cmdPkg && reaches(cal, seen) {
-				return true
-			}
-		}
-		return false
-	}
 	n := 0
-	for _, c := range p.StaticCallers(loadProject) {
-		in := c.(ssa.Instruction)
+	for _, ls := range loadSitesOfRunners(p, loadProject) {
+		in := ls.Site.(ssa.Instruction)
 		fn := in.Parent()
-		if !reaches(fn, map[*ssa.Function]bool{}) {
-			continue
-		}
 		n++
 		construct := fmt.Sprintf("%s#loadProject-%d:from-build-files", fname(fn), n)
-		args := c.Common().Args
-		// loadProject(w, args, index, quiet): the index argument
-		idx := -1
-		for i, prm := range loadProject.Params {
-			if prm.Name() == "index" {
-				idx = i
-			}
-		}
-		if idx < 0 || idx >= len(args) {
-			r.Unk(rule, construct, p.InstrPos(in), "the index parameter of loadProject was not found")
-			continue
-		}
-		b, isConst := core.ConstBool(args[idx])
+		b, isConst := core.ConstBool(ls.Index)
 		r.Check(isConst && !b, rule, construct, p.InstrPos(in), "a command that runs targets loads the project from its build files (index = false)",
 			"a command that runs targets may load the project from the saved index: index targets know nothing of the current build files (edited bodies, always=True, generated sources, flag arguments), so a dry run decided on them reports up to date what the real build of the same tree executes")
 	}
@@ -1289,7 +1250,7 @@ func checkRemovedDependenciesSeen(p *core.Prog, r *core.Result, rule string) {
 				return false
 			}
 			rg, ok := nx.Iter.(*ssa.Range)
-			return ok && core.LoadOfField(rg.X, pkgRoot, "targetInfo", "Dependencies")
+			return ok && isRecordedDependencies(p, rg.X, 0)
 		})
 	}
 	var found ssa.Instruction
@@ -1332,7 +1293,7 @@ func checkRemovedDependenciesSeen(p *core.Prog, r *core.Result, rule string) {
 					return false
 				}
 				lk, ok := e.Tuple.(*ssa.Lookup)
-				return ok && lk.CommaOk && fromRecorded(lk.Index) && !core.LoadOfField(lk.X, pkgRoot, "targetInfo", "Dependencies")
+				return ok && lk.CommaOk && fromRecorded(lk.Index) && !isRecordedDependencies(p, lk.X, 0)
 			}) {
 				found = in
 			}
@@ -1586,10 +1547,95 @@ func checkModuleErrorsNotPickedAtRandom(p *core.Prog, r *core.Result, rule strin
 	reads := 0
 	for fn := range staticClosure(p, load) {
 		core.Instrs(fn, func(in ssa.Instruction) {
-			if u, ok := in.(*ssa.UnOp); ok && core.LoadOfField(u, pkgRoot, "module", "err") && fn.Pkg == load.Pkg && (fn == load) {
+			if u, ok := in.(*ssa.UnOp); ok && core.LoadOfField(u, pkgRoot, "module", "err") && fn.Pkg == load.Pkg && recvNamed(fn) == "Project" {
 				reads++
 			}
 		})
 	}
-	r.Floor(rule, reads, 1, "reads of module.err in Project.load")
+	r.Floor(rule, reads, 1, "reads of module.err in Project.load and the Project methods it calls")
+}
+
+// loadSite is a call of (*workspace).loadProject seen from a command that goes on to run targets: Site is the call in
+// the command (the loadProject call itself, or the call of a wrapper such as loadForTarget(args)), Index the value the
+// index parameter receives there.
+type loadSite struct {
+	Site  ssa.CallInstruction
+	Index ssa.Value
+}
+
+func loadSitesOfRunners(p *core.Prog, lp *ssa.Function) []loadSite {
+	runs := func(f *ssa.Function) bool {
+		for g := range staticClosure(p, f) {
+			for _, c2 := range core.Calls(g) {
+				if cal := core.Callee(c2); cal != nil {
+					k := core.CalleeKey(cal)
+					if k == core.ModulePath+".(*Project).Run" || k == core.ModulePath+".(*Project).Watch" {
+						return true
+					}
+				}
+			}
+		}
+		return false
+	}
+	idxParam := -1
+	for i, prm := range lp.Params {
+		if prm.Name() == "index" {
+			idxParam = i
+		}
+	}
+	var out []loadSite
+	var visit func(site ssa.CallInstruction, idx ssa.Value, depth int)
+	visit = func(site ssa.CallInstruction, idx ssa.Value, depth int) {
+		f := site.Parent()
+		if runs(f) {
+			out = append(out, loadSite{site, idx})
+			return
+		}
+		if depth >= 2 || f.Pkg != lp.Pkg {
+			return
+		}
+		// a wrapper around the load: look at it from its callers
+		for _, cs := range p.StaticCallers(f) {
+			v := idx
+			if prm, isParam := idx.(*ssa.Parameter); isParam && prm.Parent() == f {
+				if i := paramIndex(f, prm); i >= 0 && i < len(cs.Common().Args) {
+					v = cs.Common().Args[i]
+				}
+			}
+			visit(cs, v, depth+1)
+		}
+	}
+	for _, c := range p.StaticCallers(lp) {
+		args := c.Common().Args
+		if idxParam < 0 || idxParam >= len(args) {
+			continue
+		}
+		visit(c, args[idxParam], 0)
+	}
+	return out
+}
+
+// isRecordedDependencies: v is the Dependencies map of a persisted record - a load of targetInfo.Dependencies, or a
+// parameter that every static caller fills with one.
+func isRecordedDependencies(p *core.Prog, v ssa.Value, depth int) bool {
+	v = core.Unwrap(v)
+	if core.LoadOfField(v, pkgRoot, "targetInfo", "Dependencies") {
+		return true
+	}
+	prm, ok := v.(*ssa.Parameter)
+	if !ok || depth > 2 {
+		return false
+	}
+	fn := prm.Parent()
+	sites := p.StaticCallers(fn)
+	i := paramIndex(fn, prm)
+	if len(sites) == 0 || i < 0 {
+		return false
+	}
+	for _, cs := range sites {
+		if i >= len(cs.Common().Args) || !isRecordedDependencies(p, cs.Common().Args[i], depth+1) {
+			return false
+		}
+	}
+	return true
 }
